@@ -45,8 +45,11 @@ def build_harness(pkg, variant="serial", profile="release"):
     cmd = ["cargo", "build", "--offline", "--quiet", "-p", "wf-" + pkg]
     if profile == "release":
         cmd.append("--release")
-    if variant in ("concurrent", "async"):
+    if variant == "concurrent":
         cmd += ["--features", variant]
+    elif variant == "async":
+        # the bundled examples crate does not compile with the async prover; crates make it optional
+        cmd += ["--no-default-features", "--features", variant]
     elif variant != "serial":
         raise ToolError("unknown variant " + variant)
     env = dict(os.environ, CARGO_NET_OFFLINE="true")
